@@ -31,7 +31,9 @@ def bound(tier):
                 trees_over_6_atoms="all with 3 operator nodes" if tier == "quick" else "(subsumed)",
                 chains="every operator string of length <= %d over 7 one-sided operators, left- and right-nested" % (5 if tier == "quick" else 6),
                 states="complex 2-qubit (all trees); all three types x n in {2,3} x {full space, 1-row batch} for trees with <= 1 operator node",
-                rejected="observable*observable anywhere; operands 'a', None, [1], 1j")
+                rejected="observable*observable anywhere; operands 'a', None, [1], 1j",
+                sampling_entry_points="sample(k=2, initial_state, overwrite=True) and statistics(5 samples, 2 chains) of every tree with <= 1 operator node, all drawn batches captured",
+                outside_alphabet="scalar-only subtrees whose exact int value exceeds 64 bits (torch refuses tensor*int)")
 
 
 @lru_cache(None)
